@@ -39,13 +39,15 @@ META = {
              "was raised, and (flavour, copy mode, size class) signatures of copies."),
     "phases": [{"name": "main", "flavour": "P", "shards": 16}],
     "gates": {
-        "quick": {"evaluations": 160000, "events_checked": 75000, "failures_checked": 30000,
-                  "silent_noops_checked": 75000, "history_ops": 100000, "copies_checked": 4400,
-                  "ops_on_copies": 24000, "exhaustive_cases": 46000,
-                  "observer_events_checked": 25000, "copy_probes": 9000},
-        "thorough": {"evaluations": 1000000, "events_checked": 300000, "failures_checked": 200000,
-                     "silent_noops_checked": 200000, "history_ops": 400000,
-                     "copies_checked": 40000, "ops_on_copies": 100000, "exhaustive_cases": 100000},
+        "quick": {"evaluations": 150000, "events_checked": 70000, "failures_checked": 28000,
+                  "silent_noops_checked": 70000, "history_ops": 90000, "copies_checked": 4000,
+                  "ops_on_copies": 22000, "exhaustive_cases": 45000,
+                  "observer_events_checked": 24000, "copy_probes": 8500},
+        "thorough": {"evaluations": 2500000, "events_checked": 1000000, "failures_checked": 550000,
+                     "silent_noops_checked": 1300000, "history_ops": 2200000,
+                     "copies_checked": 90000, "ops_on_copies": 550000,
+                     "exhaustive_cases": 45000, "observer_events_checked": 250000,
+                     "copy_probes": 190000},
     },
     "exhaustive_parts": "all single operations of the grid in `rule` on every start set of size "
                         "0..3 over the validated item universe of each flavour",
@@ -295,8 +297,8 @@ def arg_shape(op):
     name = op[0]
     if name in ("add", "discard", "remove"):
         return "unhash" if op[1] is UNHASH else type(op[1]).__name__
-    return tuple("%s:%d" % (a[0], min(len(a[1]), 3) if isinstance(a[1], (list, tuple)) else -1)
-                 for a in op_args(op))
+    args = op_args(op)
+    return (min(len(args), 3),) + tuple(sorted({a[0] for a in args}))
 
 
 def overlap_class(op, before):
